@@ -1057,8 +1057,21 @@ fn exec_mismatch(c: &Case, ctx: &mut Ctx) -> Result<(), String> {
 
 fn exec_eqfn(c: &Case, ctx: &mut Ctx) -> Result<(), String> {
     use memchr::arch::all::{is_equal, is_equal_raw, is_prefix, is_suffix};
-    let (x, y) = (c.hay, c.ndl);
-    let (got, exp) = match c.api.form {
+    // forms 4..=7: both operands are windows of the *same* placed buffer
+    // (x = hay[a2..a2+a3], y = hay[a0..a0+a1]): same start with different
+    // lengths, empty slices at one-past-the-end, overlapping shifted windows
+    let aliased = c.api.form >= 4;
+    let (x, y) = if aliased {
+        let (yo, yl, xo, xl) =
+            (c.a[0] as usize, c.a[1] as usize, c.a[2] as usize, c.a[3] as usize);
+        if xo + xl > c.hay.len() || yo + yl > c.hay.len() {
+            return Err("malformed case: alias window".to_string());
+        }
+        (&c.hay[xo..xo + xl], &c.hay[yo..yo + yl])
+    } else {
+        (c.hay, c.ndl)
+    };
+    let (got, exp) = match c.api.form & 3 {
         0 => (ctx.mon(|| is_equal(x, y)), x == y),
         1 => (ctx.mon(|| is_prefix(x, y)), x.starts_with(y)),
         2 => (ctx.mon(|| is_suffix(x, y)), x.ends_with(y)),
